@@ -24,6 +24,15 @@ def gen_sf(ctx):
         for L in range(0, maxlen + 1):
             for seq in itertools.product("tfe", repeat=L):
                 add(total, list(seq))
+    # a resume report that arrives only after the end record went out (a receiver that handled FileBegin late): nothing may follow the record
+    for total in (1, 2, 3):
+        done = ["t"] * total + ["f"] * total
+        for bits in ("1" * total, "0" * total):
+            for c in range(total):
+                for tail in (["t"], ["t", "f", "e"], ["e", "t", "t", "f"]):
+                    add(total, done + ["v", f"p:{bits}:{total}", f"m:{c}"] + tail)
+                    add(total, done + [f"p:{bits}:0", "v", "k"] + tail)
+                    add(total, done[:-1] + ["v"] + done[-1:] + [f"m:{c}"] + tail)
     # exhaustive insertion of plan / verifyBegin / verdict into disciplined worker runs
     bases = []
     for total in (1, 2, 3, 4):
@@ -98,18 +107,16 @@ def search_sf(ctx, cases, impl):
         outstanding = None   # chunk whose re-send is owed
         taken = {}
         ended = False
-        mismatch_after_end = False
         inflight = 0
         for op, o in zip(ops, outs):
             if op.startswith("p:"):
                 _, bits, ff = op.split(":")
                 plan = (bits, int(ff))
-            elif op.startswith("m:"):
+            elif op.startswith("m:") and o == "-":
+                # (a verdict is delivered only by the verification goroutine, which exists only when beginVerify accepted: "x" otherwise)
                 c = int(op[2:])
                 allowed_dups[c] = allowed_dups.get(c, 0) + 1
                 outstanding = c
-                if ended:
-                    mismatch_after_end = True
             if o.startswith("c"):
                 idx = int(o[1:])
                 inflight += 1
@@ -126,7 +133,7 @@ def search_sf(ctx, cases, impl):
                     if idx < len(bits) and bits[idx] == "1" and idx < ff:
                         ctx.violation("C17:skipped-chunk-sent", f"chunk {idx} is marked present below forceFrom={ff} but was handed out",
                                       {"case": line, "impl": out})
-                if ended and not mismatch_after_end:
+                if ended:
                     ctx.violation("C17:chunk-after-end", f"chunk {idx} handed out after FileEnd", {"case": line, "impl": out})
             if op == "f" and inflight > 0:
                 inflight -= 1
